@@ -15,6 +15,8 @@ by name, basket) ALSO run through the model of a derivative with several registe
 "multi_session": registry name -> instrument, one price buffer per instrument): named_underliers() (names in order, object identity),
 ul(i) for every position, get_underlier(name) and every payoff() answer / raised error compared exactly; scripts of registrations, buffer
 swaps, cell edits through variable / name / position, never-simulated instruments, one-path assets, refused names (fixed corpus + random).
+step sizes dt with a non-integer reciprocal (calendar days, dt > 1, ...): realized variance / volatility (dt as float / 0-dim tensor), variance swaps
+on injected and simulated prices, re-used objects: ops "var_swap", "session", "multi_session" (Float carrier), forward-start index: op "grid".
 property predicate: the contract formulas in exact Fractions (independent of the model).
 """
 import math
@@ -828,6 +830,7 @@ def check(ctx):
     check_reuse(ctx, torch, g)
     check_offgrid_maturity(ctx, torch, g)
     check_multi_asset(ctx, torch, g)
+    check_step_sizes(ctx, torch, g)
     return ctx.finish(
         rule="functional payoffs on dyadic paths (ties with the strike/extremes frequent, T=1,2,.., float32/64), derivative objects "
              "with injected buffers and random clause sequences (re-registration included; the same clause = the same callable object "
@@ -849,6 +852,9 @@ def check(ctx):
              "plus scripts on one object with 2-5 instruments around (registrations under new / existing / refused names, buffers swapped and "
              "cells edited through a variable / a name / a position, never-simulated instruments, one-path and mismatching assets, baskets with "
              "fewer / more weights than assets, clause names against underlier names: fixed corpus and random) judged by the model alone; "
+             "step sizes dt whose reciprocal is not a whole number (1/365.25, 0.03, 0.3, 2, 7/250, 0.003, 1.5, 3/8, 0.7; fixed list + random): realized "
+             "variance / volatility with dt as float / 0-dim double / 0-dim single tensor, variance swaps on injected (history, clauses, object "
+             "re-used) and simulated prices vs the contract by hand, the same through ops var_swap / session / multi_session, start-index sweep; "
              "non-trivial = T>=2 (functional), any derivative/start-index/re-use/off-grid case; distinct = sha1 of canonical case")
 
 
@@ -1298,6 +1304,14 @@ def check_reuse(ctx, torch, g):
         mfin = {k: v for k, v in fin.items() if k in ("strike", "call", "start")}
         mrecs.append((case, rec, rec.final(d, **mfin)))
     # ---------------- every payoff() answer (and every refused operation) of the real object against the model's session
+    sess_compare(ctx, sreqs, smeta)
+    # ---------------- the same sessions, registrations and re-assignments included, against the multi-underlier session model
+    ms_compare(ctx, mrecs)
+
+
+def sess_compare(ctx, sreqs, smeta):
+    """smeta: [(case, outputs of the real object, its final state, float carrier?)]: every payoff() answer (and every refused operation)
+    of the real object against the model's session (driver op "session")"""
     try:
         souts = ctx.driver(sreqs)
     except DriverBroken as e:
@@ -1330,8 +1344,6 @@ def check_reuse(ctx, torch, g):
             if got != fin:
                 ctx.disagree("session", case | {"model_ops": mops}, {k: str(v) for k, v in fin.items()},
                              {k: str(v) for k, v in got.items()}, note="final state of the object differs")
-    # ---------------- the same sessions, registrations and re-assignments included, against the multi-underlier session model
-    ms_compare(ctx, mrecs)
 
 
 def _sess_same(a, b, flt):
@@ -1423,6 +1435,253 @@ def check_offgrid_maturity(ctx, torch, g):
             if eu != got:
                 ctx.fail("forward-start option with start=0 (S_0 = 1) differs from the European call on the same simulated path", case,
                          key="derivative.forward_start.payoff:start0-vs-european", detail={"forward_start": got, "european": eu})
+
+
+# ---------------------------------------------------------------------------------------------------------------------------
+# step sizes dt whose RECIPROCAL IS NOT A WHOLE NUMBER (calendar days 1/365.25, 0.03, 0.3, steps longer than a year, 7/250, ...): "annualised"
+# means divided by dt, whatever dt is - the realized variance / volatility functionals with dt as a Python float and as a 0-dim tensor
+# (double / single precision), the variance swap on an underlier of that step size (prices injected, with a construction history and
+# clauses; prices simulated, whole and fractional numbers of steps), the same object re-used (strike, in-place price edit, new buffer),
+# and the forward-start index floor(start/dt) at these step sizes.  Predicate: the contract by hand in Python doubles.  The same
+# scenarios go to the model: ops "var_swap" (functionals, payoff_fn), "session" / "multi_session" (the re-used object, Float carrier),
+# "grid" (start index).  The fixed list is part of every run; a few random step sizes are added.
+
+STEP_SIZES = [1 / 365.25, 0.03, 0.3, 2.0, 7 / 250, 0.003, 1.5, 0.375, 0.7, 1 / 250]
+
+
+def variance_by_hand(p, dtv):
+    """annualised mean squared log-return of one path (Python doubles)"""
+    lr = [math.log(p[i + 1]) - math.log(p[i]) for i in range(len(p) - 1)]
+    return sum(z * z for z in lr) / len(lr) / dtv
+
+
+def _close(got, exp, rel=1e-9, floor_=1.0):
+    return len(got) == len(exp) and all(abs(a - b) <= rel * (floor_ + abs(b)) for a, b in zip(got, exp))
+
+
+def check_step_sizes(ctx, torch, g):
+    import pfhedge.nn.functional as fnl
+    import pfhedge.instruments as I
+    dts = [(dtv, True) for dtv in STEP_SIZES] + [(round(g.r.uniform(0.002, 2.5), g.choice([2, 3, 6])), False)
+                                                 for _ in range(6 if ctx.tier == "quick" else 80)]
+    dts = [(dtv, fixed) for dtv, fixed in dts if dtv > 0]
+    vreqs, vmeta = [], []
+    sreqs, smeta, mrecs = [], [], []
+    greqs, gmeta = [], []
+    fixed_paths = [[F(1), F(2), F(1, 2), F(1)], [F(1), F(1, 2), F(2), F(4)], [F(3, 2), F(3, 2), F(3, 2), F(3, 2)]]
+    for dtv, fixed in dts:
+        recip = 1.0 / dtv
+        cls = "reciprocal-whole" if abs(recip - round(recip)) < 1e-9 * recip else "reciprocal-not-whole"
+        # ---------------- the functionals: dt as a float / as a 0-dim tensor
+        Tu = g.choice([2, 4, 9])
+        sets = [("dyadic", fixed_paths, "float64"), ("dyadic", gen_paths(g, g.small(), g.choice([2, 3, 5, 21]), 3), "float64"),
+                ("uniform", [[g.r.uniform(0.5, 1.6) for _ in range(Tu)] for _ in range(3)], "float64"),
+                ("dyadic", gen_paths(g, 3, g.choice([2, 3, 6]), 3), "float32")]
+        for form, paths, dtype in sets:
+            fp = [[float(z) for z in p] for p in paths]
+            single = g.chance(0.2)
+            if single:
+                fp = fp[:1]
+            x = torch.tensor(fp, dtype=getattr(torch, dtype))
+            x = x[0] if single else x
+            for dform in ("float", "tensor0d-double", "tensor0d-single"):
+                dt_arg = dtv if dform == "float" else torch.tensor(dtv, dtype=torch.float64 if dform == "tensor0d-double" else torch.float32)
+                dt_val = float(dt_arg)           # the step size the call was given (single precision: its own value)
+                case = {"step_size": dtv, "class": cls, "dt_given_as": dform, "dt_value": dt_val, "dtype": dtype, "prices": form,
+                        "single_path": single, "paths": fp}
+                ctx.case(case, True, tag="step_size_functional")
+                ctx.traces += 1
+                ctx.stats[f"step:{cls}"] += 1
+                ctx.stats[f"step:dt-as={dform}"] += 1
+                # float32 prices: the logarithms carry single-precision rounding (|error of a squared log-return| < 3e-6 on these prices)
+                rel, floor_ = (1e-9, 1.0) if dtype == "float64" else (2e-5, 1.0 / dt_val)
+                res = {}
+                for name in ("realized_variance", "realized_volatility"):
+                    st, v, mut = call_impl(getattr(fnl, name), x, dt=dt_arg)
+                    if mut:
+                        ctx.mutated("functional." + name, mut, case)
+                    if st != "ok" or tuple(v.shape) != tuple(x.shape[:-1]):
+                        ctx.fail(f"{name} raised / does not have one entry per path (step size given as {dform})", case,
+                                 key=f"functional.{name}:step-size-shape", detail=v if st != "ok" else list(v.shape))
+                        continue
+                    got = [float(z) for z in v.reshape(-1).tolist()]
+                    exp = [variance_by_hand(p, dt_val) for p in fp]
+                    if name == "realized_volatility":
+                        exp = [math.sqrt(z) for z in exp]
+                        ok = _close(got, exp, rel, math.sqrt(floor_) if dtype != "float64" else 1.0)
+                    else:
+                        ok = _close(got, exp, rel, floor_)
+                    if not ok:
+                        ctx.fail(f"{name} is not the ANNUALISED mean squared log-return (mean of log(S_i+1/S_i)^2 divided by dt"
+                                 + (", square root" if name == "realized_volatility" else "") + f") for the step size dt = {dt_val!r} "
+                                 f"given as {dform}" + (": 1/dt is not a whole number" if cls == "reciprocal-not-whole" else ""), case,
+                                 key=f"functional.{name}:step-size", detail={"impl": got, "def": exp})
+                        continue
+                    res[name] = got
+                if len(res) == 2 and dtype == "float64":
+                    vreqs.append({"op": "var_swap", "dt": float_bits(dt_val), "strike": float_bits(0.0), "paths": enc_flt(fp)})
+                    vmeta.append((case, res["realized_variance"], res["realized_volatility"]))
+        # ---------------- the variance swap on an underlier of this step size: injected prices (history, clauses), then the object re-used
+        for rep in range(2 if fixed else 1):
+            N, T = g.small(), g.choice([2, 3, 4, 6])
+            adds = []
+            for _ in range(g.choice([0, 0, 1, 2])):
+                ck = g.choice(["affine", "cap", "floor"])
+                adds.append([g.choice(["a", "b", "c"]), ["affine", rat_str(g.choice([F(1, 2), F(2), F(-1)])), rat_str(g.choice([F(0), F(1, 2)]))]
+                             if ck == "affine" else [ck, rat_str(g.dy(0, 64, 0))]])
+            hist = g.weighted(HIST_WEIGHTS)
+            c = dict(kind="variance_swap", call=True, strike=F(g.choice([0.04, 0.0, 0.1, 1.0, 0.25])), paths=gen_paths(g, N, T, 3), adds=adds,
+                     dt=F(dtv), sidx=0, cform=g.choice(CFORMS), share=g.chance(0.8), hist=hist,
+                     others={key: gen_paths(g, N, T, 3) for key in hist_assets(hist)})
+            case = _small(c) | {"step_size": dtv, "class": cls}
+            ctx.case(case, True, tag="step_size_variance_swap")
+            ctx.traces += 1
+            ctx.stats[f"step:{cls}"] += 1
+            rec = MultiRec("variance_swap", flt=True)
+            pool = ClausePool(c["cform"], c["share"])
+            try:
+                d, stock, reg = build_deriv(torch, c, pool, rec=rec)
+            except Exception as e:  # noqa
+                raise InternalError("cannot build derivative: " + repr(e))
+            enc = lambda q: float_bits(float(F(q)))      # noqa
+            encd = lambda desc: [desc[0]] + [enc(z) for z in desc[1:]]      # noqa
+            sreq = {"op": "session", "carrier": "float", "kind": "variance_swap", "strike": enc(c["strike"]), "call": True, "start": 0,
+                    "dt": enc(c["dt"]), "spot": [[enc(v) for v in p] for p in c["paths"]], "attrs": [n for n in ATTR_CANDIDATES if hasattr(d, n)]}
+            mops = [["clause", n, encd(desc)] for n, desc in c["adds"]]
+            iouts = [None] * len(mops)
+            cur = dict(strike=c["strike"], paths=[list(p) for p in c["paths"]])
+            steps = [["initial"], ["strike", rat_str(F(g.choice([0.04, 0.5, 0.0, 2.0])))],
+                     ["spot", [[g.randint(-N, N - 1), g.randint(-T, T - 1), rat_str(g.dy(F(1, 4), 4, 3))]]],
+                     ["reregister", enc_rat(gen_paths(g, g.small(), g.choice([2, 3, 5]), 3))]]
+            for step, op in enumerate(steps):
+                ref = [["id", rec.known(stock)], ["name", "underlier"], ["pos", 0]][(step + N) % 3]
+                with torch.no_grad():
+                    if op[0] == "strike":
+                        cur["strike"] = F(op[1])
+                        d.strike = float(cur["strike"])
+                        mops.append(["strike", enc(op[1])]); iouts.append(None)
+                        rec.op(["strike", enc(op[1])], None)
+                    elif op[0] == "spot":
+                        for i, j, v in op[1]:
+                            cur["paths"][i][j] = F(v)
+                            _through(d, stock, ref).spot[i, j] = float(F(v))
+                            mops.append(["cell", i, j, enc(v)]); iouts.append(None)
+                            rec.op(["cell", ref, i, j, enc(v)], None)
+                    elif op[0] == "reregister":
+                        cur["paths"] = [[F(v) for v in p] for p in op[1]]
+                        _through(d, stock, ref).register_buffer("spot", torch.tensor([[float(v) for v in p] for p in cur["paths"]], dtype=torch.float64))
+                        mops.append(["reregister", [[enc(v) for v in p] for p in cur["paths"]]]); iouts.append(None)
+                        rec.op(["swap_buffer", ref, rec.rows(cur["paths"])], None)
+                    else:
+                        badreg = registry_wrong(d, reg)
+                        if badreg:
+                            ctx.fail("the underlier registry of a derivative does not list its underliers in the order in which their names were "
+                                     "registered (an underlier replaced after construction keeps its position; ul() is what the payoff reads)",
+                                     case | {"registered": reg_show(reg)}, key="derivative.underliers:registration-order", detail=badreg)
+                        rec.views(d)
+                    st, v, mut = call_impl(d.payoff, watch=[("derivative", d)])
+                    base = d.payoff_fn() if st == "ok" else None
+                if mut:
+                    ctx.mutated("derivative.payoff", mut, case)
+                mops.append(["query"])
+                rec.query(st, v)
+                here = case | {"step": step, "after": op, "strike_now": rat_str(cur["strike"]), "paths_now": enc_rat(cur["paths"])}
+                if st != "ok" or tuple(v.shape) != (len(cur["paths"]),):
+                    iouts.append(("err", v) if st != "ok" else ("ok", [float(z) for z in v.reshape(-1).tolist()]))
+                    ctx.fail("variance swap payoff() raised / does not have one entry per path", here,
+                             key="derivative.variance_swap.payoff:step-size-error", detail=v if st != "ok" else list(v.shape))
+                    break
+                iouts.append(("ok", [float(z) for z in v.reshape(-1).tolist()]))
+                fp = [[float(z) for z in p] for p in cur["paths"]]
+                expb = [variance_by_hand(p, dtv) - float(cur["strike"]) for p in fp]
+                gotb = [float(z) for z in base.tolist()]
+                if not _close(gotb, expb):
+                    ctx.fail("variance swap does not pay the ANNUALISED mean squared log-return (mean of log(S_i+1/S_i)^2 divided by the step "
+                             f"size dt = {dtv!r} of its underlier) minus the strike" + (": 1/dt is not a whole number" if cls == "reciprocal-not-whole" else "")
+                             + ("" if step == 0 else f" (object re-used: after {op[0]})"), here,
+                             key="derivative.variance_swap.payoff:step-size" + ("" if step == 0 else "-reuse"), detail={"impl": gotb, "def": expb})
+                    break
+                expc = [apply_clauses_float(c["adds"], b) for b in gotb]
+                gotc = [float(z) for z in v.tolist()]
+                if gotc != expc:
+                    ctx.fail("variance swap: payoff() differs from the registered clauses applied to payoff_fn() in registration order", here,
+                             key="derivative.variance_swap.payoff:" + ("same-clause-twice" if same_clause_twice(c["adds"]) else "clauses"),
+                             detail={"impl": gotc, "clauses(payoff_fn)": expc, "payoff_fn": gotb})
+                    break
+                vreqs.append({"op": "var_swap", "dt": float_bits(dtv), "strike": float_bits(float(cur["strike"])), "paths": enc_flt(fp)})
+                vmeta.append((here, gotb, None))
+            fin = {"strike": F(d.strike), "names": [n for n, _ in d.named_clauses()], "spot": [[F(z) for z in r] for r in stock.spot.tolist()]}
+            sreqs.append(sreq | {"ops": mops})
+            smeta.append((case, iouts, fin, True))
+            mrecs.append((case, rec, rec.final(d, strike=fin["strike"])))
+        # ---------------- simulated prices: the maturity a whole / fractional number of steps, double and single precision
+        for dtype in ("float64", "float32"):
+            steps_ = g.choice([1, 2, 5, 20]) + g.choice([0, 0, 0.5, 0.25])
+            K, N, seed = g.choice([0.04, 0.0, 0.1]), g.choice([1, 3, 7]), g.randint(0, 10 ** 6)
+            sigma = g.choice([0.2, 0.3, 1.0])
+            hist = g.weighted(HIST_WEIGHTS)
+            case = {"step_size": dtv, "class": cls, "simulated": True, "maturity": steps_ * dtv, "steps": steps_, "strike": K, "n_paths": N,
+                    "seed": seed, "sigma": sigma, "dtype": dtype}
+            if hist != "direct":
+                case["history"] = [list(z) for z in HIST[hist]]
+            ctx.case(case, True, tag="step_size_variance_swap_simulated")
+            ctx.traces += 1
+            stock = I.BrownianStock(sigma=sigma, dt=dtv, dtype=getattr(torch, dtype))
+            assets = {"S": stock} | {key: I.BrownianStock(sigma=0.4, dt=dtv, dtype=getattr(torch, dtype)) for key in hist_assets(hist)}
+            d, reg = make_with_history(hist, lambda ul: I.VarianceSwap(ul, strike=K, maturity=steps_ * dtv), assets)
+            torch.manual_seed(seed)
+            d.simulate(n_paths=N)
+            with torch.no_grad():
+                st, v, mut = call_impl(d.payoff, watch=[("derivative", d)])
+            if mut:
+                ctx.mutated("derivative.payoff", mut, case)
+            fp = [[float(z) for z in r] for r in stock.spot.tolist()]
+            case = case | {"n_columns": len(fp[0])}
+            if st != "ok" or tuple(v.shape) != (N,):
+                ctx.fail("variance swap payoff() raised / does not have one entry per path on simulated prices", case,
+                         key="derivative.variance_swap.payoff:step-size-error", detail=v if st != "ok" else list(v.shape))
+                continue
+            got = [float(z) for z in v.tolist()]
+            exp = [variance_by_hand(p, dtv) - K for p in fp]
+            rel, floor_ = (1e-9, 1.0) if dtype == "float64" else (2e-5, 1.0 / dtv)
+            if not _close(got, exp, rel, floor_):
+                ctx.fail("variance swap on simulated prices does not pay the ANNUALISED mean squared log-return (divided by the step size "
+                         f"dt = {dtv!r} of its underlier) minus the strike" + (": 1/dt is not a whole number" if cls == "reciprocal-not-whole" else ""),
+                         case, key="derivative.variance_swap.payoff:step-size-simulated", detail={"impl": got, "def": exp, "paths": fp})
+                continue
+            if dtype == "float64":
+                vreqs.append({"op": "var_swap", "dt": float_bits(dtv), "strike": float_bits(K), "paths": enc_flt(fp)})
+                vmeta.append((case, got, None))
+        # ---------------- the forward-start index at this step size: start on and off the grid
+        for kk in ([0, 1, 2, 3, 7, 20] if fixed else [g.randint(0, 60)]):
+            for frac in (0, 0.25, 0.5, 0.9):
+                start = (kk + frac) * dtv
+                o = I.EuropeanForwardStartOption(I.BrownianStock(dt=dtv), start=start, maturity=start + 10 * dtv)
+                greqs.append({"op": "grid", "m": float_bits(start), "dt": float_bits(dtv), "start": float_bits(start)})
+                gmeta.append((start, dtv, o._start_index(), kk, frac))
+    try:
+        vouts, gouts = ctx.driver(vreqs), ctx.driver(greqs)
+    except DriverBroken as e:
+        ctx.ties_broken.append({"kind": "driver", "detail": str(e)[:1500]})
+        vouts, gouts = [], []
+    for (case, var, vol), m in zip(vmeta, vouts):
+        for got, field in ((var, "payoff"), (vol, "rvol")):
+            if got is not None and not _close(got, dec_flt(m[field]), 1e-10):
+                ctx.disagree("var_swap_step_size:" + field, case, got, dec_flt(m[field]))
+    for (start, dtv, got, kk, frac), m in zip(gmeta, gouts):
+        case = {"start": start, "dt": dtv, "k": kk, "frac": frac, "step_size_sweep": True}
+        ctx.case(case, True, tag="start_index")
+        ctx.traces += 1
+        if m["start_shipped"] != got:
+            ctx.disagree("start_index", case, got, m["start_shipped"])
+        ratio = F(start) / F(dtv)
+        near = round(ratio)
+        want = near if abs(ratio - near) <= F(1, 10 ** 9) * max(1, abs(near)) else math.floor(ratio)
+        if got != want:
+            ctx.fail("forward-start option starts at the wrong time index: floor(start/dt) in doubles lands one index early",
+                     case | {"start_index": got, "expected": want}, key="cliquet._start_index:floor(start/dt)", detail={"ratio": float(ratio)})
+    sess_compare(ctx, sreqs, smeta)
+    ms_compare(ctx, mrecs)
 
 
 # ---------------------------------------------------------------------------------------------------------------------------
